@@ -287,7 +287,8 @@ func inContainers(doc string, f func([]byte)) {
 // multiLineRefs yields full, collapsed and shortcut references (links and images) whose label or text spans lines,
 // with a matching definition, in every container.
 func multiLineRefs(f func([]byte)) {
-	labels := []string{"foo\nbar", "foo \n bar", "foo\nbar\nbaz", "foo bar"}
+	// ... also with the label's closing bracket alone at the start of the next line (the label's last line ends before its span does)
+	labels := []string{"foo\nbar", "foo \n bar", "foo\nbar\nbaz", "foo bar", "foo bar\n", "foo bar \n ", "foo\nbar\n"}
 	for _, l := range labels {
 		def := "[foo bar]: /u 't'\n"
 		if strings.Count(l, "\n") == 2 {
@@ -636,8 +637,27 @@ func refRuns(f func([]byte)) {
 	}
 }
 
+// vocabularyTags yields raw HTML whose tag names are the renderer's own element names (br, p, a, img, em, ...), with attributes the
+// renderer never writes, upper-case and self-closing spellings, and line endings inside the tag - inline and as HTML blocks.
+// When raw HTML is ignored none of it may come through, whatever the name.
+func vocabularyTags(f func([]byte)) {
+	names := []string{"br", "p", "a", "img", "em", "strong", "code", "pre", "h1", "ul", "ol", "li", "blockquote", "hr"}
+	tails := []string{">", "/>", " />", " class=\"x\" onmouseover=\"go()\">", "\ndata-x=1>", " href=\"javascript:x\">", " src=x onerror=y>"}
+	for _, n := range names {
+		for _, form := range []string{n, strings.ToUpper(n)} {
+			for _, t := range tails {
+				f([]byte("one<" + form + t + "two\n"))
+				f([]byte("<" + form + t + "\nthree\n\nfour\n"))
+				f([]byte("- [l <" + form + t + "](/u) ![i <" + form + t + "](/v)\n"))
+			}
+			f([]byte("a </" + form + "> b\n"))
+		}
+	}
+}
+
 // structured yields the deterministic structured families shared by the input sets of most checks.
 func (s *inputSource) structured(thorough bool, f func([]byte)) {
+	vocabularyTags(f)
 	htmlBlockLines(f)
 	indentedFences(f)
 	emailAutolinks(f)
